@@ -48,6 +48,12 @@ func writeDocFiles() {
 	base := [][]pdfdoc.Item{{{2, 1}, {3, 2}, {1, 3}}, {{3, 4}, {2, 5}}}
 	b, err := pdfdoc.Build(l1, base, []pdfdoc.Item{{2, 11}}, []pdfdoc.Item{{3, 21}})
 	put("pdfA", ".pdf", b, err)
+	// three revisions behind cross-reference streams, the dictionaries split over object streams, later revisions
+	// replacing members of an earlier revision's object stream
+	l3 := pdfdoc.Layout{Doc: 3, XRef: "stream", ObjStm: "split", Filter: "a85fl", Length: "refAfter", Size: "small", Split: 1,
+		Depth: 3, MediaAt: 1, ResAt: 0, Revs: 3, Numbering: "shuffled", Order: "reversed", Eol: "lf", Count: "chain"}
+	b3, err3 := pdfdoc.Build(l3, base, []pdfdoc.Item{{2, 11}}, []pdfdoc.Item{{3, 21}})
+	put("pdfSplit", ".pdf", b3, err3)
 	b, err = pdfdoc.Build(l2, base, []pdfdoc.Item{{2, 11}, {1, 12}}, []pdfdoc.Item{{3, 21}})
 	put("pdfB", ".pdf", b, err)
 	// an object stream whose header goes wrong after the first entries (the fifth number is not a number): looking an
@@ -428,6 +434,14 @@ func handleDoc(name string) *hdoc {
 		// "x@2": x after other work on the same handle
 		"reader-text-p0": ptext(-1, 0), "reader-text-p0@2": ptext(0, 0),
 		"reader-text-p1": ptext(-1, 1), "reader-text-p1@2": ptext(0, 1),
+		// ... and the pages in descending order: page 1 after page 2, page 2 after the last page
+		"reader-text-p0@after1": ptext(1, 0), "reader-text-p1@after2": ptext(2, 1),
+		// the fluent API over a reader the caller keeps open (FromReader): one page alone, and after another page or the
+		// whole text went through the same reader
+		"fromreader-page1": fromReader(path, nil, 1), "fromreader-page1@afterpage2": fromReader(path, []int{2}, 1),
+		"fromreader-page2": fromReader(path, nil, 2), "fromreader-page2@afterpage1": fromReader(path, []int{1}, 2),
+		"fromreader-page1@afterall": fromReader(path, []int{0}, 1),
+		"fromreader-all": fromReader(path, nil, 0), "fromreader-all@2": fromReader(path, []int{0}, 0), "fromreader-all@afterpage2": fromReader(path, []int{2}, 0),
 		"reader-getpage0": nth(1, func(rd *reader.Reader) string { return page(rd, 0) }), "reader-getpage0@2": nth(2, func(rd *reader.Reader) string { return page(rd, 0) }),
 		"reader-getpage1": nth(1, func(rd *reader.Reader) string { return page(rd, 1) }), "reader-getpage1@2": nth(2, func(rd *reader.Reader) string { return page(rd, 1) }),
 		"reader-pagecount": nth(1, count), "reader-pagecount@2": nth(2, count),
@@ -442,6 +456,33 @@ func handleDoc(name string) *hdoc {
 		},
 		"ext-pagecount": ext(1, pc), "ext-pagecount@2": ext(2, pc),
 	}}
+}
+
+// fromReader: the text of page `page` (0 = all pages) through tabula.FromReader over ONE reader the caller keeps open,
+// after the pages of `before` (0 = all) were extracted through the same reader
+func fromReader(path string, before []int, page int) func() string {
+	return func() string {
+		rd, err := reader.Open(path)
+		if err != nil {
+			return errStr(err)
+		}
+		defer rd.Close()
+		get := func(p int) string {
+			e := tabula.FromReader(rd)
+			if p > 0 {
+				e = e.Pages(p)
+			}
+			s, _, err := e.Text()
+			if err != nil {
+				return errStr(err)
+			}
+			return s
+		}
+		for _, b := range before {
+			get(b)
+		}
+		return get(page)
+	}
 }
 
 // forkDoc: a selection built step by step gives the same text whether its extractor is the only one derived from
@@ -506,7 +547,7 @@ func init() {
 		if docFilePaths["pdfSix"] != "" {
 			out = append(out, forkDoc("pdfSix"))
 		}
-		for _, n := range []string{"pdfA", "pdfHex", "pdfHexFl", "pdfBadObjStm", "pdfMixed", "pdfSharedRes", "pdfKidsLoop", "pdfKidsMissing", "pdfBadStream"} {
+		for _, n := range []string{"pdfA", "pdfB", "pdfSplit", "pdfHex", "pdfHexFl", "pdfBadObjStm", "pdfMixed", "pdfSharedRes", "pdfKidsLoop", "pdfKidsMissing", "pdfBadStream"} {
 			if docFilePaths[n] != "" {
 				out = append(out, handleDoc(n))
 			}
